@@ -365,7 +365,11 @@ ObsFails(C, E, n, m, ls, ln) ==
               yrN    == {"C06.yearly_summary_equals_sum_of_fractions"}
                         \cup (IF k < m \/ (to # MaxDay /\ from = MinDay) THEN {"C09.closed_year_totals_unchanged"} ELSE {})
                         \cup (IF from # MinDay THEN {"C10.yearly_lines_cover_whole_years_from_window_start"} ELSE {})
-              f4     == IF SetEq(ln.yr, expYr) THEN {} ELSE yrN
+              \* (lines merged over long / short: if the merged lines agree, the mismatch is in how fractions were split by term)
+              NoTerm(S) == {<<yt[1], yt[2], Sum({r \in S : r[1] = yt[1] /\ r[2] = yt[2]}, LAMBDA r : r[4]), Sum({r \in S : r[1] = yt[1] /\ r[2] = yt[2]}, LAMBDA r : r[5])>> :
+                              yt \in {<<r[1], r[2]>> : r \in S}}
+              f4     == IF SetEq(ln.yr, expYr) THEN {}
+                        ELSE yrN \cup (IF NoTerm(ToSet(ln.yr)) = NoTerm(expYr) THEN {"C05.yearly_lines_split_by_the_term_of_each_fraction"} ELSE {})
               expBal == {<<a, L.bal[a].acq, L.bal[a].sent, L.bal[a].recv, L.bal[a].fin>> : a \in DOMAIN L.bal}
               balN   == {"C07.balances_equal_account_flows"}
                         \cup (IF to # MaxDay THEN {"C10.balances_reflect_history_up_to_to_date"} ELSE {})
